@@ -3,6 +3,7 @@
   Property theorems only (helpers: Proofs/Bytes.lean, Proofs/Layout.lean, Proofs/Load.lean).
 -/
 import SifVerif.Proofs.Load
+import SifVerif.Proofs.LoadRanges
 namespace Sif.C11
 
 /-- the header is 128 bytes and the descriptor 585 bytes, whatever the field values -/
@@ -146,5 +147,11 @@ def exDesc : RawDesc :=
 example : exHdr.Valid := by constructor <;> decide +kernel
 example : exDesc.Valid ∧ zeroDesc.Valid := by constructor <;> constructor <;> decide +kernel
 example : loadable exDesc = true ∧ loadable zeroDesc = true := by decide
+
+/-- direction "someone else's file → this library": every field of an accepted image was decoded from
+    its fixed-width slot, so the handle satisfies `Ranges` — the hypothesis under which the encoder
+    writes the same bytes back (`C11_roundtrip`) -/
+theorem C11_loaded_ranges (st : Store) (s : Img) (h : loadContainer st = .ok s) : Ranges s :=
+  loadContainer_ranges st s h
 
 end Sif.C11
